@@ -859,3 +859,100 @@ func checkQRShiftStrategy(c *core.Ctx) {
 			"the driver calls francisQRstep without an argument that depends on a counter of unproductive steps: the double-shift step has fixed points ([[2,1,0],[1,2,1],[0,1,2]], cyclic permutations) on which the driver never ends")
 	}
 }
+
+// C20.R17 — progress test of the Newton back-tracking loops. The inner loop shortens the step until the constraint
+// holds; it is left by `break` (step accepted) or by an error when the trial point no longer differs from the current
+// one. The outer iteration makes progress only if an accepted step is non-zero, so the "x did not change" test has to be
+// passed (false edge) on every path to the accepting break; otherwise a zero step is accepted and the outer loop, whose
+// default limit is MaxInt, repeats the same iterate for ever.
+func checkBacktrackingProgress(c *core.Ctx) {
+	c.Rule("C20.R17", "Newton back-tracking: in the step-halving loop the test that the trial point equals the current one (a top-level if that returns) precedes the statement with the accepting break", 2)
+	p := c.Pkg("algorithm/newton")
+	if p == nil {
+		c.Unknown("C20.R17", "algorithm/newton", "package loaded", token.NoPos, "not loaded")
+		return
+	}
+	_ = p.TypesInfo
+	for _, name := range []string{"newton_root", "newton_min"} {
+		fd := core.FindFunc(p, name)
+		cons := "algorithm/newton." + name
+		if fd == nil {
+			c.Unknown("C20.R17", cons, "present", token.NoPos, "not found")
+			continue
+		}
+		found := false
+		ast.Inspect(fd.Body, func(n ast.Node) bool {
+			fs, ok := n.(*ast.ForStmt)
+			if !ok || fs.Cond != nil || fs.Init != nil || found {
+				return true
+			}
+			// top-level statements of the loop body: the unchanged-point test (an if whose body leaves the function) has to
+			// come before the statement that contains the accepting break
+			eqIdx, brkIdx := -1, -1
+			var eq ast.Expr
+			var brk *ast.BranchStmt
+			for k, st := range fs.Body.List {
+				if is, ok := st.(*ast.IfStmt); ok && eqIdx < 0 {
+					if ifTestsEquality(is) && len(is.Body.List) > 0 {
+						if _, isRet := is.Body.List[len(is.Body.List)-1].(*ast.ReturnStmt); isRet {
+							eqIdx, eq = k, is.Cond
+						}
+					}
+				}
+				ast.Inspect(st, func(m ast.Node) bool {
+					if inner, ok := m.(*ast.ForStmt); ok && inner != fs {
+						return false
+					}
+					if b, ok := m.(*ast.BranchStmt); ok && b.Tok == token.BREAK && b.Label == nil && brkIdx < 0 {
+						brkIdx, brk = k, b
+					}
+					return true
+				})
+			}
+			if brk == nil {
+				return true
+			}
+			// the equality test may also exist but not as a top-level returning if
+			if eq == nil {
+				ast.Inspect(fs.Body, func(m ast.Node) bool {
+					if is, ok := m.(*ast.IfStmt); ok && ifTestsEquality(is) {
+						eq = is.Cond
+					}
+					return true
+				})
+				if eq == nil {
+					return true
+				}
+			}
+			found = true
+			ok2 := eqIdx >= 0 && eqIdx < brkIdx
+			c.Check(ok2, "C20.R17", cons, "accepted step differs from the current point", brk.Pos(),
+				"the step-halving loop can be left through `break` without having passed the test "+types.ExprString(eq)+": a zero step is accepted and the outer iteration repeats the same point until MaxIterations (MaxInt by default)")
+			return true
+		})
+		if !found {
+			c.Unknown("C20.R17", cons, "back-tracking loop found", fd.Pos(), "no `for { ... }` loop with an equality test and a break found")
+		}
+	}
+}
+
+// ifTestsEquality: the condition (or the init statement) of the if calls an ...Equals... function.
+func ifTestsEquality(is *ast.IfStmt) bool {
+	found := false
+	look := func(n ast.Node) {
+		if n == nil {
+			return
+		}
+		ast.Inspect(n, func(m ast.Node) bool {
+			if ce, ok := m.(*ast.CallExpr); ok && strings.Contains(strings.ToLower(calleeName(ce)), "equals") {
+				found = true
+			}
+			return true
+		})
+	}
+	look(is.Cond)
+	if is.Init != nil {
+		look(is.Init)
+	}
+	return found
+}
